@@ -1,20 +1,571 @@
 /-
   C19 — objects keep their true type and class; non-heap objects are never freed.
 
-  Property theorems only. Model: Cello/Hdr.lean; source-derived tables: CelloGen/Hdr.lean; lemmas: CelloProofs/Lemmas/Hdr*.lean.
+  Property theorems only.
+  Model: Cello/Hdr.lean (`step`, `run`: births, dealloc/del, the guarded String/Tuple operations, the containers' element
+  births and moves, the collector's registry and sweep).  Source-derived tables: CelloGen/Hdr.lean.
+  Lemmas: CelloProofs/Lemmas/Hdr.lean (invariant `WF`), HdrBody.lean (element headers), HdrStep.lean (`wf_run`),
+  HdrKeep.lean (`stable_run`: headers never change, non-heap objects are never released).
+
+  Every model theorem is proved for all configurations that are `Sound`; `C19_current_source_sound` decides that the
+  configuration read from the source that is in /repo now is `Sound`, and the `…_current` corollaries instantiate it.
 -/
-import Cello.Hdr
-import CelloGen.Hdr
+import CelloProofs.Lemmas.HdrGuard
 
 namespace Cello.Hdr
+
+/-! ## A. the source as it is now -/
 
 /-- **The code that is in /repo now satisfies every source-level assumption of the theorems below**: four distinct
     allocation classes; every place a header is written (alloc_by, Type_Alloc, alloc_stack, CelloObject, Array_Alloc,
     List_Alloc, Table_Set_Move ×2, Tree_Alloc ×2) writes type, class and magic number with the class of its route;
     `dealloc` refuses static, stack and data objects with ResourceError before it fills or frees the block and does not
     refuse heap objects; every reallocating function of String.c / Tuple.c tests `AllocStack or AllocStatic` and throws
-    ValueError before its first mutation; objects are registered with the collector only by `alloc_by`, after
-    `header_init(.., AllocHeap)`. Decided over the tables regenerated from the source on every run. -/
+    ValueError before its first mutation; objects are registered with the collector only by `alloc_by` (standard and
+    root, not raw), after `header_init(.., AllocHeap)`; `del` goes through the collector.
+    Decided over the tables regenerated from the source on every run. -/
 theorem C19_current_source_sound : Config.current.Sound = true := by decide
+
+/-- **`C19_realloc_guarded`**: every function of String.c and Tuple.c that calls `realloc` or `free` — whatever the
+    translator finds, not a fixed list — has the allocation-class guard (stack and static refused with ValueError, heap and
+    data let through) before its first mutation of the object; a sibling that it calls counts as a mutation only if that
+    sibling reallocates too. Moving a guard after a `memmove`/`realloc`/store, weakening it or dropping it breaks this. -/
+theorem C19_realloc_guarded :
+    ∀ p ∈ CelloGen.Hdr.reallocFns, (guardFromEvents p.2).Protects Config.current = true := by decide
+
+/-- the reallocating functions the model mirrors are all in that table (none was renamed away) -/
+theorem C19_realloc_table_covers_model :
+    ["String_Del", "String_Assign", "String_Concat", "String_Resize", "Tuple_Del", "Tuple_Assign", "Tuple_Push",
+     "Tuple_Pop", "Tuple_Push_At", "Tuple_Pop_At", "Tuple_Concat", "Tuple_Resize"].all
+      (fun f => (CelloGen.Hdr.reallocFns.lookup f).isSome) = true := by decide
+
+/-- **headers are written at exactly these places, with these classes** (calls of `header_init` in src/*.c, the
+    `alloc_stack` macro, the static initialiser of `CelloObject`): a new birth place, a removed one or a changed class
+    breaks this theorem. -/
+theorem C19_header_sites :
+    CelloGen.Hdr.headerSites =
+      [("Array_Alloc", "a->type", CelloGen.Hdr.allocData), ("CelloObject", "NULL", CelloGen.Hdr.allocStatic),
+       ("List_Alloc", "l->type", CelloGen.Hdr.allocData), ("Table_Set_Move", "t->ktype", CelloGen.Hdr.allocData),
+       ("Table_Set_Move", "t->vtype", CelloGen.Hdr.allocData), ("Tree_Alloc", "m->ktype", CelloGen.Hdr.allocData),
+       ("Tree_Alloc", "m->vtype", CelloGen.Hdr.allocData), ("Type_Alloc", "Type", CelloGen.Hdr.allocHeap),
+       ("alloc_by", "type", CelloGen.Hdr.allocHeap), ("alloc_stack", "T", CelloGen.Hdr.allocStack)] := by decide
+
+/-- `Type_Of` recovers the type as the model's `typeOf` does: NULL pointer, released block, foreign block → ValueError;
+    a NULL type word means `Type`; otherwise the type word. `dealloc`: hand-over to the type's own `dealloc`, NULL check,
+    the three class checks, only then fill and free. -/
+theorem C19_typeof_and_dealloc_shape :
+    CelloGen.Hdr.typeOfEvents =
+      [.nullCheck "ValueError", .deadMagic CelloGen.Hdr.deadMagic "ValueError", .badMagic "ValueError", .nullIsType, .returnType] ∧
+    CelloGen.Hdr.deallocEvents =
+      [.own, .nullCheck "ResourceError", .classCheck CelloGen.Hdr.allocStatic "ResourceError",
+       .classCheck CelloGen.Hdr.allocStack "ResourceError", .classCheck CelloGen.Hdr.allocData "ResourceError", .fill, .free] ∧
+    CelloGen.Hdr.headerFields = ["type", "alloc", "magic"] := by decide
+
+/-! ## B. every reachable state is well formed -/
+
+/-- **Invariant, for all histories**: starting from the empty state, after any sequence of operations (births by every
+    route, copies, freeing operations on objects and on embedded objects, in-place operations, collector runs) every
+    element/key/value of every container carries the container's declared type, class `data` and the magic number;
+    every registered handle is a live heap object; every released handle was a heap object and is dead; nothing was
+    released twice; handles are distinct. -/
+theorem C19_reachable_wf (cfg : Config) (hs : cfg.Sound = true) (ops : List Op) : WF cfg (run cfg St.init ops) :=
+  wf_run (facts_of_sound hs) ops (wf_init cfg)
+
+theorem C19_reachable_wf_current (ops : List Op) : WF Config.current (run Config.current St.init ops) :=
+  C19_reachable_wf Config.current C19_current_source_sound ops
+
+/-- the type a container declares for the object a target designates -/
+def declTy : Body → Target → Option Ty
+  | .seq _ ety _, .elem _ _ => some ety
+  | .map _ kty _ _, .key _ _ => some kty
+  | .map _ _ vty _, .val _ _ => some vty
+  | _, _ => none
+
+/-- **C19_types (elements)**: in every reachable state, every element of an Array/List and every key and value of a
+    Table/Tree that `get` hands out has `type_of` = the container's declared element (key, value) type, class `data` and
+    a valid magic number. -/
+theorem C19_types_elements (cfg : Config) (hs : cfg.Sound = true) (ops : List Op) (t : Target) (o : Obj) (e : Elem) (ty : Ty)
+    (hget : (run cfg St.init ops).get t.id = some o) (he : o.body.elemAt t = some e) (hty : declTy o.body t = some ty) :
+    typeOf cfg e.hdr = some ty ∧ e.hdr.alloc = cfg.cData ∧ e.hdr.magic = cfg.magic := by
+  have hb : BodyOK cfg o.body := bodyOK_of_get (C19_reachable_wf cfg hs ops) hget
+  have hh : e.hdr = dataHdr cfg ty := by
+    cases hbody : o.body with
+    | seq k ety es =>
+      rw [hbody] at he hty hb
+      cases t <;> simp only [Body.elemAt, declTy] at he hty <;> try cases hty
+      exact hb e (List.mem_of_getElem? he)
+    | map k kty vty ents =>
+      rw [hbody] at he hty hb
+      cases t <;> simp only [Body.elemAt, declTy] at he hty <;> try cases hty
+      · rename_i id i
+        cases hp : ents[i]? with
+        | none => simp [hp] at he
+        | some p => simp only [hp, Option.map_some, Option.some.injEq] at he; rw [← he]; exact (hb p (List.mem_of_getElem? hp)).1
+      · rename_i id i
+        cases hp : ents[i]? with
+        | none => simp [hp] at he
+        | some p => simp only [hp, Option.map_some, Option.some.injEq] at he; rw [← he]; exact (hb p (List.mem_of_getElem? hp)).2
+    | _ => rw [hbody] at hty; cases t <;> simp [declTy] at hty
+  rw [hh]; simp [typeOf, dataHdr]
+
+/-- what iterating a container body hands out, in terms of its declared type -/
+theorem iterate_container (cfg : Config) (hs : cfg.Sound = true) (ops : List Op) (id : Nat) (o : Obj)
+    (l : List (Option Seen)) (hget : (run cfg St.init ops).get id = some o)
+    (hit : (run cfg St.init ops).iterate cfg id = some l) :
+    (∀ k ety es, o.body = .seq k ety es → ∀ x ∈ l, x = some (some ety, cfg.cData)) ∧
+    (∀ k kty vty ents, o.body = .map k kty vty ents → ∀ x ∈ l, x = some (some kty, cfg.cData)) := by
+  have hb : BodyOK cfg o.body := bodyOK_of_get (C19_reachable_wf cfg hs ops) hget
+  unfold St.iterate at hit
+  rw [hget] at hit
+  simp only at hit
+  split at hit
+  · constructor
+    · intro k ety es hbody x hx
+      rw [hbody] at hit hb
+      simp only [Option.some.injEq] at hit
+      subst hit
+      obtain ⟨e, he, rfl⟩ := List.mem_map.mp hx
+      simp [seenElem, hb e he, typeOf, dataHdr]
+    · intro k kty vty ents hbody x hx
+      rw [hbody] at hit hb
+      simp only [Option.some.injEq] at hit
+      subst hit
+      obtain ⟨e, he, rfl⟩ := List.mem_map.mp hx
+      simp [seenElem, (hb e he).1, typeOf, dataHdr]
+  · cases hit
+
+/-- **C19_types (iteration)**: forward and backward iteration over an Array, List, Table or Tree in any reachable state
+    hands out only objects whose `type_of` is the declared element (key) type and whose class is `data`; `get(m, key)`
+    for every key of a Table/Tree hands out objects of the declared value type and class `data`. -/
+theorem C19_types_iteration (cfg : Config) (hs : cfg.Sound = true) (ops : List Op) (id : Nat) (o : Obj)
+    (hget : (run cfg St.init ops).get id = some o) :
+    (∀ l k ety es, (run cfg St.init ops).iterate cfg id = some l → o.body = .seq k ety es →
+        ∀ x ∈ l ++ l.reverse, x = some (some ety, cfg.cData)) ∧
+    (∀ l k kty vty ents, (run cfg St.init ops).iterate cfg id = some l → o.body = .map k kty vty ents →
+        ∀ x ∈ l ++ l.reverse, x = some (some kty, cfg.cData)) ∧
+    (∀ l k kty vty ents, (run cfg St.init ops).mapValues cfg id = some l → o.body = .map k kty vty ents →
+        ∀ x ∈ l, x = some (some vty, cfg.cData)) := by
+  refine ⟨?_, ?_, ?_⟩
+  · intro l k ety es hit hbody x hx
+    have := (iterate_container cfg hs ops id o l hget hit).1 k ety es hbody
+    simp only [List.mem_append, List.mem_reverse, or_self] at hx
+    exact this x hx
+  · intro l k kty vty ents hit hbody x hx
+    have := (iterate_container cfg hs ops id o l hget hit).2 k kty vty ents hbody
+    simp only [List.mem_append, List.mem_reverse, or_self] at hx
+    exact this x hx
+  · intro l k kty vty ents hit hbody x hx
+    have hb : BodyOK cfg o.body := bodyOK_of_get (C19_reachable_wf cfg hs ops) hget
+    unfold St.mapValues at hit
+    rw [hget] at hit
+    simp only at hit
+    split at hit
+    · rw [hbody] at hit hb
+      simp only [Option.some.injEq] at hit
+      subst hit
+      obtain ⟨e, he, rfl⟩ := List.mem_map.mp hx
+      simp [seenElem, (hb e he).2, typeOf, dataHdr]
+    · cases hit
+
+theorem everySecond_mem {α : Type} (l : List α) : ∀ x ∈ everySecond l, x ∈ l := by
+  induction l using everySecond.induct with
+  | case1 => intro x hx; cases hx
+  | case2 y => intro x hx; exact hx
+  | case3 y z r ih =>
+    intro x hx
+    simp only [everySecond, List.mem_cons] at hx ⊢
+    rcases hx with hx | hx
+    · exact Or.inl hx
+    · exact Or.inr (Or.inr (ih x hx))
+
+/-- **C19_types (views)**: what a view hands out. `slice`, `reverse`, `filter` and `map` (identity) hand out objects of
+    the underlying iterable, so its guarantee carries over; `zip` and `enumerate` hand out their own Tuple, which is a
+    stack object; a Range hands out its own Int: the `$I(0)` of `range(...)` (stack) or the `new(Int)` of `new(Range, ...)`
+    (heap). -/
+theorem C19_types_views (cfg : Config) (hs : cfg.Sound = true) (s : St) (v : View) (l : List (Option Seen))
+    (hv : s.viewItems cfg v = some l) :
+    match v with
+    | .slice id _ | .reverse id | .filter id | .map id => ∃ u, s.iterate cfg id = some u ∧ ∀ x ∈ l, x ∈ u
+    | .zip _ _ | .enumerate _ => ∀ x ∈ l, x = some (some Ty.tuple, cfg.cStack)
+    | .rangeStack _ _ _ => ∀ x ∈ l, x = some (some Ty.int, cfg.cStack)
+    | .rangeHeap _ _ _ => ∀ x ∈ l, x = some (some Ty.int, cfg.cHeap) := by
+  have F := facts_of_sound hs
+  cases v with
+  | slice id k =>
+    simp only [St.viewItems] at hv
+    cases hi : s.iterate cfg id with
+    | none => simp [hi] at hv
+    | some u => simp only [hi, Option.map_some, Option.some.injEq] at hv; subst hv
+                exact ⟨u, hi, fun x hx => List.mem_of_mem_drop hx⟩
+  | reverse id =>
+    simp only [St.viewItems] at hv
+    cases hi : s.iterate cfg id with
+    | none => simp [hi] at hv
+    | some u => simp only [hi, Option.map_some, Option.some.injEq] at hv; subst hv
+                exact ⟨u, hi, fun x hx => List.mem_reverse.mp hx⟩
+  | filter id =>
+    simp only [St.viewItems] at hv
+    cases hi : s.iterate cfg id with
+    | none => simp [hi] at hv
+    | some u => simp only [hi, Option.map_some, Option.some.injEq] at hv; subst hv
+                exact ⟨u, hi, everySecond_mem u⟩
+  | map id =>
+    simp only [St.viewItems] at hv
+    exact ⟨l, hv, fun x hx => hx⟩
+  | zip a b =>
+    simp only [St.viewItems] at hv
+    split at hv
+    · simp only [Option.some.injEq] at hv; subst hv
+      intro x hx; rw [(List.mem_replicate.mp hx).2, F.bStack]
+    · cases hv
+  | enumerate id =>
+    simp only [St.viewItems] at hv
+    cases hi : s.iterate cfg id with
+    | none => simp [hi] at hv
+    | some u => simp only [hi, Option.map_some, Option.some.injEq] at hv; subst hv
+                intro x hx; rw [(List.mem_replicate.mp hx).2, F.bStack]
+  | rangeStack a b c =>
+    simp only [St.viewItems, Option.some.injEq] at hv; subst hv
+    intro x hx; rw [(List.mem_replicate.mp hx).2, F.bStack]
+  | rangeHeap a b c =>
+    simp only [St.viewItems, Option.some.injEq] at hv; subst hv
+    intro x hx; rw [(List.mem_replicate.mp hx).2, F.bAllocBy]
+
+/-- the class each route must give -/
+def Route.cls (cfg : Config) : Route → Nat
+  | .stack => cfg.cStack
+  | .static => cfg.cStatic
+  | _ => cfg.cHeap
+
+/-! ## C. births -/
+
+/-- **new / new_raw / new_root / alloc / alloc_raw / alloc_root / `$` carry the constructing type and the class of their
+    route** (run-time types included: `new(Type, ...)` gives an object of type `Type`, `new(rt)` an object of type `rt`):
+    whenever the model makes an object, `type_of` of the new handle is the type it was made as, its class is `heap` for
+    the six allocating routes, `stack` for `$`, `static` for an object in the data segment, its magic number is valid and
+    it is alive. -/
+theorem C19_births_carry_type (cfg : Config) (hs : cfg.Sound = true) (s s' : St) (id : Nat) (r : Route) (i : Init)
+    (h : stepMake cfg s id r i = (s', .made id)) :
+    ∃ o, s'.get id = some o ∧ typeOf cfg o.hdr = some i.ty ∧ o.hdr.alloc = r.cls cfg ∧ o.hdr.magic = cfg.magic ∧
+      o.live = true := by
+  have F := facts_of_sound hs
+  unfold stepMake at h
+  split at h
+  · cases h
+  · rename_i hfresh
+    have hnone : s.get id = none := by simpa using hfresh
+    split at h
+    · cases h
+    · rename_i b hb
+      have hg : s'.get id = (s.birth cfg id r i.ty b).get id := by
+        simp only [Prod.mk.injEq, and_true] at h
+        rw [← h]; split <;> rfl
+      refine ⟨{ hdr := (birthHeader cfg s r i.ty).1, cap := (birthHeader cfg s r i.ty).2, body := b, live := true }, ?_,
+        birthHeader_type F s r i.ty, ?_, birthHeader_magic F s r i.ty, rfl⟩
+      · rw [hg, get_birth cfg s id id r i.ty b hnone]; simp
+      · cases r <;> simp [Route.cls, birthHeader, headerInit_eq F, F.bStack]
+        all_goals (split <;> simp [F.bTypeAlloc, F.bAllocBy])
+
+/-- **copy carries the type of its source and is a registered heap object** -/
+theorem C19_copy_carries_type (cfg : Config) (hs : cfg.Sound = true) (s s' : St) (id src : Nat)
+    (h : stepCopy cfg s id src = (s', .made id)) :
+    ∃ o osrc, s.get src = some osrc ∧ s'.get id = some o ∧ typeOf cfg o.hdr = typeOf cfg osrc.hdr ∧
+      o.hdr.alloc = cfg.cHeap ∧ o.live = true := by
+  have F := facts_of_sound hs
+  unfold stepCopy at h
+  split at h
+  · cases h
+  · rename_i hfresh
+    have hnone : s.get id = none := by simpa using hfresh
+    split at h
+    · rename_i osrc hsrc
+      split at h
+      · cases h
+      · split at h
+        · cases h
+        · split at h
+          · rename_i t b hcp
+            simp only [Prod.mk.injEq, and_true] at h
+            subst h
+            refine ⟨{ hdr := (birthHeader cfg s .new t).1, cap := (birthHeader cfg s .new t).2, body := b, live := true }, osrc,
+              hsrc, ?_, ?_, birth_alloc_heap F s t rfl, rfl⟩
+            · rw [get_birth cfg s id id .new t b hnone]; simp
+            · rw [birthHeader_type F s .new t, copyBody_ty hcp]
+          · cases h
+    · cases h
+
+/-- **a built-in static type object has type `Type` and class `static`** (its type word is NULL until `Type_Of` reads it) -/
+theorem C19_static_type_objects (cfg : Config) (hs : cfg.Sound = true) (s s' : St) (id : Nat) (name : String)
+    (h : stepStatic cfg s id name = (s', .made id)) :
+    ∃ o, s'.get id = some o ∧ typeOf cfg o.hdr = some .type ∧ o.hdr.alloc = cfg.cStatic := by
+  have F := facts_of_sound hs
+  unfold stepStatic at h
+  split at h
+  · cases h
+  · rename_i hc
+    split at h
+    · cases h
+    · have hnone : s.get id = none := by
+        simp only [Bool.or_eq_true, not_or, Bool.not_eq_true, Option.isSome_eq_false_iff, Option.isNone_iff_eq_none] at hc
+        exact hc.1
+      simp only [Prod.mk.injEq, and_true] at h
+      subst h
+      refine ⟨{ hdr := staticHeader cfg, cap := 0, body := .tyobj (Ty.ofName name) 0, live := true }, ?_, ?_, ?_⟩
+      · simp only [St.get] at *
+        rw [assoc_append, hnone]; simp [assoc]
+      · simp [typeOf, staticHeader]
+      · simp [staticHeader, F.bStaticObj]
+
+/-- **`size(type)` bytes are usable**: every allocating route reserves at least `size(type)` bytes behind the header
+    (`Type_Alloc` reserves its whole table), `$`/static objects of the built-in types reserve `sizeof(struct T)`, and
+    every element, key and value slot of a container is at least `size` of its declared type (Array and Table round it up
+    to a multiple of 8). -/
+theorem C19_size_usable (cfg : Config) (s : St) :
+    (∀ r ty, r.isHeap = true → s.sizeOf ty ≤ (birthHeader cfg s r ty).2) ∧
+    (∀ r ty, r.isHeap = false → (∀ k, ty ≠ .rt k) → s.sizeOf ty = (birthHeader cfg s r ty).2) ∧
+    (∀ k ety v, s.sizeOf ety ≤ (seqElem cfg s k ety v).cap) ∧
+    (∀ k kty vty a b, s.sizeOf kty ≤ (mapEntry cfg s k kty vty a b).1.cap ∧ s.sizeOf vty ≤ (mapEntry cfg s k kty vty a b).2.cap) := by
+  refine ⟨?_, ?_, ?_, ?_⟩
+  · intro r ty hr
+    cases r <;> simp [Route.isHeap] at hr <;> (simp only [birthHeader]; split)
+    all_goals first
+      | (rename_i hty; subst hty; simp [St.sizeOf, builtinSize])
+      | exact Nat.le_refl _
+  · intro r ty hr hrt
+    cases r <;> simp [Route.isHeap] at hr <;> (cases ty <;> simp_all [birthHeader, St.sizeOf])
+  · intro k ety v
+    cases k <;> simp only [seqElem, mkElem] <;> exact slotCap_ge _ _
+  · intro k kty vty a b
+    cases k <;> simp only [mapEntry, mkElem] <;> exact ⟨slotCap_ge _ _, slotCap_ge _ _⟩
+
+/-- **headers never change, non-heap objects never die**: over any sequence of operations an existing handle keeps its
+    header (type, class, magic number) and its reserved size, and if its class is not `heap` it stays as alive as it was —
+    no `del`, `dealloc`, destructor, in-place operation or collector run releases a stack, static or embedded object. -/
+theorem C19_headers_never_change (cfg : Config) (s : St) (ops : List Op) (id : Nat) (o : Obj) (h : s.get id = some o) :
+    ∃ o', (run cfg s ops).get id = some o' ∧ o'.hdr = o.hdr ∧ o'.cap = o.cap ∧
+      (o.hdr.alloc ≠ cfg.cHeap → o'.live = o.live) :=
+  stable_run ops s id o h
+
+/-! ## D. dealloc, the guards, the collector -/
+
+/-- **`C19_no_free_nonheap` (dealloc)**: `dealloc` releases the block iff the class is `heap`; for a static, stack or
+    embedded object it raises and the state is *unchanged* — ResourceError, except that the refusal of the `Terminal`
+    object itself comes out as FormatError because `Terminal` cannot be an argument of the message. -/
+theorem C19_dealloc_frees_iff_heap (cfg : Config) (hs : cfg.Sound = true) (s : St) (id : Nat) (o : Obj) :
+    (o.hdr.alloc = cfg.cHeap → dealloc cfg s id o = (s.release id, .ok)) ∧
+    (o.hdr.alloc = cfg.cStatic ∨ o.hdr.alloc = cfg.cStack ∨ o.hdr.alloc = cfg.cData →
+      dealloc cfg s id o = (s, .raised (if o.body = .tyobj (.builtin "Terminal") 0 then "FormatError" else "ResourceError"))) := by
+  have F := facts_of_sound hs
+  constructor
+  · intro h; simp [dealloc, h, F.refHeap]
+  · intro h
+    rcases h with h | h | h <;> simp [dealloc, h, F.refStatic, F.refStack, F.refData]
+
+/-- the same for an embedded object handed out by a container: always refused (never released) -/
+theorem C19_dealloc_embedded_refused (cfg : Config) (hs : cfg.Sound = true) (e : Elem) (h : e.hdr.alloc = cfg.cData)
+    (hv : e.val ≠ .strFreed) : deallocElem cfg e = .raised "ResourceError" := by
+  have F := facts_of_sound hs
+  simp [deallocElem, h, F.refData, hv]
+
+/-- **`C19_no_free_nonheap` (in-place operations)**: every reallocating operation of String (`resize`, `concat`,
+    `assign`) and of Tuple (`push`, `pop`, `push_at`, `pop_at`, `concat`, `assign`, `resize`, `rem`) applied to a stack or
+    static object returns the object *unchanged* and raises an exception — ValueError, or the IndexOutOfBoundsError of an
+    index check that the source performs first. (String's `rem` edits the characters in place and never reallocates.) -/
+theorem C19_inplace_refused_on_stack_static (cfg : Config) (hs : cfg.Sound = true) (s : St) (alloc : Nat)
+    (ha : alloc = cfg.cStack ∨ alloc = cfg.cStatic) (op : InPlace) (b : Body) (out : Outcome) :
+    (∀ cur, (∀ x, op ≠ .rem x) → stringOp cfg s alloc cur op = some (b, out) →
+        b = .scalar (.str cur) ∧ ∃ e, out = .raised e) ∧
+    (∀ items, tupleOp cfg s alloc items op = some (b, out) → b = .tuple items ∧ ∃ e, out = .raised e) := by
+  have F := facts_of_sound hs
+  have hres : { cfg.tResize with boundsFirst := false }.Protects cfg = true := by
+    have := F.tResize; simp only [Guard.Protects] at this ⊢; exact this
+  constructor
+  · intro cur hrem h
+    unfold stringOp at h
+    cases op <;> simp only at h
+    case rem x => exact absurd rfl (hrem x)
+    all_goals (repeat' split at h)
+    all_goals first
+      | (cases h; done)
+      | (simp only [runGuarded_refuses F.sResize ha, runGuarded_refuses F.sConcat ha, runGuarded_refuses F.sAssign ha,
+           Option.some.injEq, Prod.mk.injEq] at h
+         exact ⟨h.1.symm, _, h.2.symm⟩)
+  · intro items h
+    unfold tupleOp at h
+    cases op <;> simp only at h
+    all_goals (repeat' split at h)
+    all_goals first
+      | (cases h; done)
+      | (simp only [runGuarded_refuses F.tPush ha, runGuarded_refuses F.tPop ha, runGuarded_refuses F.tPushAt ha,
+           runGuarded_refuses F.tPopAt ha, runGuarded_refuses F.tConcat ha, runGuarded_refuses F.tAssign ha,
+           runGuarded_refuses hres ha, Option.some.injEq, Prod.mk.injEq] at h
+         exact ⟨h.1.symm, _, h.2.symm⟩)
+      | (simp only [Option.some.injEq, Prod.mk.injEq] at h
+         exact ⟨h.1.symm, _, h.2.symm⟩)
+
+/-- **the destructors refuse stack and static objects**: `String_Del` / `Tuple_Del` on a stack or static String / Tuple
+    raise ValueError and change nothing (so `del_raw` of such an object stops there and never reaches `dealloc`). -/
+theorem C19_destructor_refused_on_stack_static (cfg : Config) (hs : cfg.Sound = true) (h : Header)
+    (ha : h.alloc = cfg.cStack ∨ h.alloc = cfg.cStatic) :
+    (∀ t, destructBody cfg h (.scalar (.str t)) = (.scalar (.str t), .raised "ValueError")) ∧
+    (∀ items, destructBody cfg h (.tuple items) = (.tuple items, .raised "ValueError")) := by
+  have F := facts_of_sound hs
+  obtain ⟨_, hs1, hs2, _, _, he⟩ := Guard.protects_iff.mp F.sDel
+  obtain ⟨_, ht1, ht2, _, _, hte⟩ := Guard.protects_iff.mp F.tDel
+  have hcs : cfg.sDel.classes.contains h.alloc = true := by rcases ha with h' | h' <;> rw [h'] <;> assumption
+  have hct : cfg.tDel.classes.contains h.alloc = true := by rcases ha with h' | h' <;> rw [h'] <;> assumption
+  constructor
+  · intro t; simp only [destructBody, hcs, if_true, he]
+  · intro items; simp only [destructBody, hct, if_true, hte]
+
+/-- **only heap objects are ever registered with the collector** (for all histories), so `del` — which only acts on a
+    registered pointer — and a collector run release only heap objects. -/
+theorem C19_registry_heap_only (cfg : Config) (hs : cfg.Sound = true) (ops : List Op) :
+    ∀ p ∈ (run cfg St.init ops).reg, ∃ o, (run cfg St.init ops).get p.1 = some o ∧ o.hdr.alloc = cfg.cHeap ∧ o.live = true :=
+  (C19_reachable_wf cfg hs ops).reg
+
+/-- **`del` of something the collector does not manage does nothing**: a stack, static or embedded object (never
+    registered, by the invariant) is left exactly as it is — the model's state is unchanged. -/
+theorem C19_del_of_unregistered_is_noop (cfg : Config) (hs : cfg.Sound = true) (s : St) (id : Nat) (o : Obj)
+    (hnr : s.isReg id = false) (f : FreeOp) (hf : f = .del ∨ f = .delRoot) : freeObj cfg s f id o = (s, .ok) := by
+  have F := facts_of_sound hs
+  rcases hf with h | h <;> subst h <;> simp [freeObj, F.delViaCollector, hnr]
+
+theorem C19_del_of_embedded_is_noop (cfg : Config) (hs : cfg.Sound = true) (e : Elem) (f : FreeOp)
+    (hf : f = .del ∨ f = .delRoot) : freeElem cfg f e = (e, .ok) := by
+  have F := facts_of_sound hs
+  rcases hf with h | h <;> subst h <;> simp [freeElem, F.delViaCollector]
+
+/-- **a collector run frees only registered heap objects and leaves everything else exactly as it was**: in a reachable
+    state, whatever set of victims is declared unreachable, every released handle was registered (hence a live heap
+    object), and every handle whose class is not `heap` keeps its object unchanged. -/
+theorem C19_sweep_frees_only_heap (cfg : Config) (hs : cfg.Sound = true) (ops : List Op) (victims : List Nat) :
+    let s := run cfg St.init ops
+    (∀ id ∈ (s.sweep cfg victims).2, ∃ o, s.get id = some o ∧ o.hdr.alloc = cfg.cHeap ∧ o.live = true) ∧
+    (∀ k o, s.get k = some o → o.hdr.alloc ≠ cfg.cHeap → (s.sweep cfg victims).1.get k = some o) := by
+  intro s
+  have hw : WF cfg s := C19_reachable_wf cfg hs ops
+  constructor
+  · intro id hid
+    simp only [St.sweep, St.sweepVictims, List.mem_map, List.mem_filter] at hid
+    obtain ⟨p, ⟨hp, _⟩, rfl⟩ := hid
+    exact hw.reg p hp
+  · intro k o hget hn
+    simp only [St.sweep]
+    exact foldl_sweepOne_get _ hw hget hn
+
+/-- **released exactly once**: over every history nothing is released twice, everything released was a heap object and
+    is dead afterwards. -/
+theorem C19_release_once (cfg : Config) (hs : cfg.Sound = true) (ops : List Op) :
+    (run cfg St.init ops).freed.Nodup ∧
+    ∀ id ∈ (run cfg St.init ops).freed, ∃ o, (run cfg St.init ops).get id = some o ∧ o.hdr.alloc = cfg.cHeap ∧ o.live = false :=
+  ⟨(C19_reachable_wf cfg hs ops).once, (C19_reachable_wf cfg hs ops).freed⟩
+
+/-- **a heap object deleted once is released once**: `del` of a live registered object in a reachable state removes it
+    from the registry, releases its block (one new entry in the release log) and raises nothing; by `C19_release_once`
+    it can never be released again. -/
+theorem C19_del_releases_registered (cfg : Config) (hs : cfg.Sound = true) (ops : List Op) (id : Nat) (o : Obj)
+    (hget : (run cfg St.init ops).get id = some o) (hreg : (run cfg St.init ops).isReg id = true) :
+    let s := run cfg St.init ops
+    (freeObj cfg s .del id o).2 = .ok ∧ (freeObj cfg s .del id o).1.freed = s.freed ++ [id] ∧
+      (freeObj cfg s .del id o).1.isReg id = false := by
+  intro s
+  have F := facts_of_sound hs
+  have hw : WF cfg s := C19_reachable_wf cfg hs ops
+  obtain ⟨p, hp, hpid⟩ := isReg_true hreg
+  obtain ⟨o1, hget1, hheap, hlive⟩ := hw.reg p hp
+  rw [hpid] at hget1
+  have ho : o1 = o := by rw [hget] at hget1; cases hget1; rfl
+  subst ho
+  obtain ⟨_, _, _, hsh, _, _⟩ := Guard.protects_iff.mp F.sDel
+  obtain ⟨_, _, _, hth, _, _⟩ := Guard.protects_iff.mp F.tDel
+  have hd : (destructBody cfg o1.hdr o1.body).2 = .ok := by
+    unfold destructBody
+    rw [hheap]
+    repeat' split
+    all_goals simp_all
+  have hunreg : (s.unreg id).isReg id = false := by
+    simp [St.isReg, St.unreg, List.any_filter]
+  have hreg' : s.isReg id = true := hreg
+  simp only [freeObj, F.delViaCollector, if_true, hreg']
+  cases hdb : destructBody cfg o1.hdr o1.body with
+  | mk b out =>
+    rw [hdb] at hd
+    simp only at hd
+    subst hd
+    simp only [dealloc, hheap, F.refHeap, if_true]
+    refine ⟨by trivial, by rfl, ?_⟩
+    simpa [St.isReg, St.release, St.updBody] using hunreg
+
+/-! ## E. known findings on this tree (the model, which mirrors the code, violates the full statement) -/
+
+/-- The full statement "an attempt to free a container-embedded object raises and leaves it intact", for `del_raw`:
+    `∀ e` embedded, `freeElem cfg .delRaw e = (e, .raised "ResourceError")`. -/
+def C19_delraw_embedded_statement (cfg : Config) : Prop :=
+  ∀ e : Elem, e.hdr.alloc = cfg.cData → e.val ≠ .strFreed → freeElem cfg .delRaw e = (e, .raised "ResourceError")
+
+/-- **refuted on this tree** (KF-C19-delraw-embedded): `del_by` runs `dealloc(destruct(self))`, so the destructor of an
+    embedded String frees its characters before `dealloc` looks at the class; `dealloc` then formats the freed object
+    into its message. Witness: the element of `new(Array, String, "ab")`. -/
+theorem C19_delraw_embedded_refuted : ¬ C19_delraw_embedded_statement Config.current := by
+  intro h
+  have := h (seqElem Config.current St.init .array .string (.str "ab")) (by decide) (by decide)
+  revert this
+  decide
+
+/-- what is proved instead: every freeing operation leaves an embedded object exactly as it is, and never releases it,
+    unless it runs the destructor of an embedded String (`del_raw`, `destruct`) -/
+theorem C19_embedded_intact_partial (cfg : Config) (hs : cfg.Sound = true) (f : FreeOp) (e : Elem)
+    (h : (f ≠ .delRaw ∧ f ≠ .destruct) ∨ (∀ t, e.val ≠ .str t)) : (freeElem cfg f e).1 = e := by
+  have F := facts_of_sound hs
+  have hd : (∀ t, e.val ≠ .str t) → destructElem cfg e = (e, .ok) := by
+    intro hv; unfold destructElem; split
+    · rename_i t ht; exact absurd ht (hv t)
+    · rfl
+  cases f <;> simp only [freeElem, F.delViaCollector, if_true]
+  case delRaw =>
+    rcases h with h | h
+    · exact absurd rfl h.1
+    · rw [hd h]
+  case destruct =>
+    rcases h with h | h
+    · exact absurd rfl h.2
+    · rw [hd h]
+
+/-- **refuted on this tree** (KF-C19-tree-misaligned-header): `Tree_Alloc` places the value's header at
+    `3*sizeof(var) + sizeof(struct Header) + size(ktype)` without rounding, so a 12-byte key type puts it at offset 60. -/
+theorem C19_tree_value_header_aligned_refuted : treeValHeaderAligned Config.current 12 = false := by decide
+
+/-- what is proved instead: for key types whose size is a multiple of 8 (all built-in types) the value's header is aligned -/
+theorem C19_tree_value_header_aligned_partial (cfg : Config) (ksize : Nat) (h : ksize % 8 = 0) :
+    treeValHeaderAligned cfg ksize = true := by
+  simp only [treeValHeaderAligned, treeValHeaderOffset, slotCap, round8, beq_iff_eq]
+  split <;> omega
+
+/-- **candidate finding** (KF-C19-del-silent): the statement asks that an attempt to `del` a stack object *raises*; the
+    code (and the model) silently ignore a pointer the collector does not know. Witness: `del($I(7))`. The object is
+    intact (`C19_del_of_embedded_is_noop`, `C19_headers_never_change`). -/
+theorem C19_del_of_stack_object_raises_refuted :
+    freeElem Config.current .del { hdr := headerInit Config.current .int Config.current.bStack, cap := 8, val := .int 7 } =
+      ({ hdr := headerInit Config.current .int Config.current.bStack, cap := 8, val := .int 7 }, .ok) := by decide
+
+/-! ## F. non-vacuity: concrete histories reach the states the theorems speak about -/
+
+/-- a history with a heap Int, a stack String, an Array of three Ints and a Table; the registry and release log after a
+    `del`, a refused `dealloc` and a collector run -/
+example :
+    let ops : List Op :=
+      [.make 0 .new (.int 5), .make 1 .stack (.str "hello"), .make 2 .new (.seq .array .int [.int 1, .int 2, .int 3]),
+       .make 3 .newRoot (.map .table .int .string [(.int 1, .str "x")]), .free .dealloc (.obj 1), .free .del (.obj 0),
+       .inplace (.push 0) (.obj 2), .sweep [1, 2, 3]]
+    let s := run Config.current St.init ops
+    s.freed = [0, 2] ∧ s.reg = [(3, true)] ∧ s.isLive 1 = true ∧
+    (s.get 3).map (fun o => o.body.elemAt (.key 3 0)) = some (some { hdr := dataHdr Config.current .int, cap := 8, val := .int 1 }) := by
+  decide
+
+/-- the hypotheses of `C19_inplace_refused_on_stack_static` are met by a real stack Tuple: `pop_at(tuple(a, b), 0)` -/
+example :
+    tupleOp Config.current (run Config.current St.init [.make 0 .new (.int 1), .make 1 .new (.int 2)]) Config.current.cStack [0, 1] (.popAt 0)
+      = some (.tuple [0, 1], .raised "ValueError") := by decide
 
 end Cello.Hdr
